@@ -250,7 +250,9 @@ def check_framing(ctx):
         cvars = {t.id for t in rules.assigned_targets(cn.ast) if isinstance(t, ast.Name)} if isinstance(cn.ast, ast.Assign) else set()
         dcall = next(c for c in dec[0].calls if call_name(c) == "HsmsBlock.decode")
         qcall = next(c for c in qb[0].calls if call_name(c) == "self._thread.queue_block")
-        ok = norm(dcall.args[0]) in cvars and len(qcall.args) == 2 and norm(qcall.args[1]) in dvar and cfg.dominates(cn, dec[0]) and cfg.dominates(dec[0], qb[0])
+        # the decoded block is queued: through a local or as the argument itself
+        queued_is_decoded = len(qcall.args) == 2 and (norm(qcall.args[1]) in dvar or qcall.args[1] is dcall)
+        ok = norm(dcall.args[0]) in cvars and queued_is_decoded and cfg.dominates(cn, dec[0]) and (dec[0] is qb[0] or cfg.dominates(dec[0], qb[0]))
     ctx.ob("C04.P1", q, ok, "the consumed frame is decoded and that block is queued" if ok else "the queued block is not the decode of the bytes just consumed", key="decode-queue", where=f.where)
 
 
